@@ -1,6 +1,8 @@
 import LLBuild.Drv.Common
 import LLBuild.Model.Signature
 import LLBuild.Generated.SignatureRecipe
+import LLBuild.Model.BSAttrs
+import LLBuild.Generated.BSAttrs
 
 /-! Driver modes for C09 (signature half); same line protocol as harness/vc09.cpp. -/
 namespace LLBuild.Drv.C09
@@ -140,6 +142,186 @@ def stepHashStr (line : String) : String :=
     | none => "bad-op"
   | _ => "bad-op"
 
-def modes : List (String × Mode) := [("c09sig", lineLoop stepSig), ("c09hashstr", lineLoop stepHashStr)]
+/-! ## `c09configure`: definition (ordered keys) → the members `BSAttrs.run` computes, printed as harness/vc09.cpp
+mode `configure` prints what the REAL loader left in the command object.  The description functions below are
+observation devices only (hand models of get{Short,Verbose}Description of each command class). -/
+section Configure
+open LLBuild.BSAttrs
+
+def b (s : String) : Bytes := s.toUTF8.toList
+
+def shellWhitelist : Bytes := b "abcdefghijklmnopqrstuvwxyzABCDEFGHIJKLMNOPQRSTUVWXYZ1234567890-_/:@%+=.,"
+
+/-- `basic::appendShellEscapedString` (POSIX branch) -/
+def shellEscape (s : Bytes) : Bytes :=
+  if s.all shellWhitelist.contains then s
+  else if !s.contains 39 then [39] ++ s ++ [39]
+  else
+    let pre := s.takeWhile (· != 39)
+    let rest := s.dropWhile (· != 39)
+    [39] ++ pre ++ (rest.map fun c => if c == 39 then b "'\\''" else [c]).flatten ++ [39]
+
+def joinSp (l : List Bytes) : Bytes := (l.intersperse [32]).flatten
+
+def quoteIfSpace (s : Bytes) : Bytes := if s.contains 32 then [34] ++ s ++ [34] else s
+
+/-- the loop of StaleFileRemovalCommand::getVerboseDescription: the separator follows every element that differs
+from the LAST element (by value) -/
+def oddJoin (l : List Bytes) : Bytes :=
+  match l.getLast? with
+  | none => []
+  | some z => (l.map fun x => if x != z then x ++ b ", " else x).flatten
+
+def shortDescription (tool : String) (name : Bytes) (m : Mem) : Bytes :=
+  let desc := (m "description").strD
+  if tool == "phony" then name
+  else if tool == "archive" then (if desc.isEmpty then b "Archiving " ++ (m "archiveName").strD else desc)
+  else if tool == "shared-library" then (if desc.isEmpty then b "Creating Shared library: " ++ (m "sharedLibName").strD else desc)
+  else if tool == "stale-file-removal" then (if desc.isEmpty then b "Stale file removal" else desc)
+  else if tool == "swift-compiler" then
+    b "Compiling Swift Module '" ++ (m "moduleName").strD ++ b "' (" ++ b (toString (m "sourcesList").strsD.length) ++ b " sources)"
+  else desc
+
+def sharedLibArgs (m : Mem) : List Bytes :=
+  let style := (m "compilerStyle").strD
+  let exe := (m "executable").strD
+  let ins := (m "sharedLibInputs").strsD
+  let nm := (m "sharedLibName").strD
+  let other := (m "otherArgs").strsD
+  if style == b "swiftc" then [exe, b "-emit-library"] ++ ins ++ [b "-o", nm] ++ other
+  else if style == b "clang" then [exe] ++ ins ++ [b "-o", nm] ++ other ++ [b "-shared"]
+  else if style == b "cl" then [exe] ++ ins ++ [b "/o", nm, b "/LD", b "/MD", b "/link", b "MSVCRT.lib"]
+  else []
+
+/-- `none`: not observed (swift-compiler; outputs[0] of an empty vector) -/
+def verboseDescription (tool : String) (name : Bytes) (m : Mem) : Option Bytes :=
+  let outs := (m "outputs").strsD
+  if tool == "phony" then some name
+  else if tool == "shell" || tool == "clang" then some (joinSp ((m "args").strsD.map shellEscape))
+  else if tool == "mkdir" then outs.head?.map fun o => b "mkdir -p " ++ quoteIfSpace o
+  else if tool == "symlink" then
+    outs.head?.map fun o =>
+      let lp := (m "linkOutputPath").strD
+      let path := if lp.isEmpty then o else lp
+      b "ln -sfh " ++ (if !path.isEmpty then quoteIfSpace path else b "<<<missing output>>>") ++ [32] ++
+        quoteIfSpace (m "contents").strD
+  else if tool == "archive" then some (joinSp ([b "ar", b "cr", (m "archiveName").strD] ++ (m "archiveInputs").strsD))
+  else if tool == "shared-library" then some (joinSp (sharedLibArgs m))
+  else if tool == "stale-file-removal" then
+    some (shortDescription tool name m ++ b ", stale files: [], roots: [" ++ oddJoin (m "roots").strsD ++ b "]")
+  else none
+
+def hexPairs (s : String) : Option (List (Bytes × Bytes)) :=
+  if s == "." || s == "" then some [] else
+  (s.splitOn ",").mapM fun kv => match kv.splitOn ":" with
+    | [k, v] => do some ((← Hex.decode k), (← Hex.decode v))
+    | _ => none
+
+def parseEntry (e : String) : Option Entry :=
+  match e.splitOn "=" with
+  | [h, v] =>
+    if h == "i" then (hexListDecode v).map .inputs
+    else if h == "o" then (hexListDecode v).map .outputs
+    else if h == "d" then (Hex.decode v).map .description
+    else match h.splitOn ":" with
+      | [k, key] => do
+        let key ← Hex.decode key
+        if k == "s" then (Hex.decode v).map fun x => .attr key (.scalar x)
+        else if k == "l" then (hexListDecode v).map fun x => .attr key (.list x)
+        else if k == "m" then (hexPairs v).map fun x => .attr key (.map x)
+        else none
+      | _ => none
+  | _ => none
+
+def bit (x : Bool) : String := if x then "1" else "0"
+
+def pairsEncode (l : List (Bytes × Bytes)) : String :=
+  if l.isEmpty then "." else ",".intercalate (l.map fun p => Hex.encode p.1 ++ ":" ++ Hex.encode p.2)
+
+def observation (tool : String) (name : Bytes) (m : Mem) : String :=
+  let d := toDef name m
+  let sig := match (Generated.Signature.tools.lookup tool).map (·.2) with
+    | some cls => match Generated.Signature.recipeOf cls, sigTerm Generated.Signature.recipeOf d 4 cls with
+      | some r, some t => hex64 (evalSig r t)
+      | _, _ => "none"
+    | none => "none"
+  let common := "sig=" ++ sig ++ " in=" ++ hexListEncode d.inputs ++ " out=" ++ hexListEncode d.outputs ++
+    " repair=" ++ bit ((m "repairViaOwnershipAnalysis").boolD false) ++
+    " short=" ++ Hex.encode (shortDescription tool name m) ++
+    " verbose=" ++ (match verboseDescription tool name m with | some v => Hex.encode v | none => "?")
+  let ext := if tool != "symlink" && tool != "stale-file-removal" then
+      " desc=" ++ Hex.encode (m "description").strD ++ " ami=" ++ bit d.allowMissingInputs ++
+      " amo=" ++ bit d.allowModifiedOutputs ++ " aood=" ++ bit d.alwaysOutOfDate else ""
+  let sh := if tool == "shell" then
+      " args=" ++ hexListEncode d.args ++ " env=" ++ pairsEncode d.env ++ " deps=" ++ hexListEncode d.depsPaths ++
+      " style=" ++ toString d.depsStyle ++ " inh=" ++ bit d.inheritEnv ++ " csi=" ++ bit d.canSafelyInterrupt ++
+      " sigdata=" ++ Hex.encode d.signatureData ++ " wd=" ++ Hex.encode d.workingDirectory ++ " ce=" ++ bit d.controlEnabled
+    else ""
+  common ++ ext ++ sh
+
+def stepConfigure (line : String) : String :=
+  match fields line with
+  | cwd :: tool :: name :: es =>
+    match Hex.decode cwd, Hex.decode name, es.mapM parseEntry with
+    | some cwd, some name, some entries =>
+      -- protocol rule (see vc09.cpp): a symlink definition is observed only if one `o=` entry has exactly one name
+      let observable := tool != "symlink" || entries.any fun | .outputs [_] => true | _ => false
+      match run Generated.BSAttrs.tables cwd { tool := tool, name := name, entries := entries } with
+      | .loaded m ds =>
+        "loaded " ++ (if observable then observation tool name m else "unobservable") ++ " diags=" ++ hexListEncode ds
+      | .aborted ds => "aborted diags=" ++ hexListEncode ds
+      | .stuck => "stuck"
+    | _, _, _ => "bad-op"
+  | _ => "bad-op"
+
+/-- every literal of the generated tables: the text form is the UTF-8 decoding of the byte form -/
+def allLits : List Lit :=
+  let msg (m : Msg) : List Lit := m.filterMap fun | .lit l => some l | _ => none
+  let conv : Conv → List Lit
+    | .boolStrict t f e => [t, f] ++ msg e
+    | .boolLenient t => [t]
+    | .enumStrict cs e => cs.map (·.1) ++ msg e
+    | .oneOfLenient a e => a ++ msg e
+    | .nonNegInt a c => msg a ++ msg c
+    | .shellWrap p => p
+    | .splitDropEmpty s => [s]
+    | .listCopyNonEmpty e => msg e
+    | .nodesExactlyOne a c => msg a ++ msg c
+    | .nonVirtualNamesOf _ e => msg e
+    | .firstNonVirtualNameOf _ a c => msg a ++ msg c
+    | _ => []
+  let ov (o : BSAttrs.Overload) : List Lit :=
+    (o.rows.map fun r => r.attr :: (r.assigns.map fun a => conv a.conv).flatten).flatten ++
+      (match o.otherwise with | Otherwise.unexpected e => msg e | _ => [])
+  let asg (l : List Assign) : List Lit := (l.map fun a => conv a.conv).flatten
+  (Generated.BSAttrs.tables.map fun t => ov t.scalar ++ ov t.list ++ ov t.map ++ asg t.inputs ++ asg t.outputs ++ asg t.description).flatten ++
+  (Generated.BSAttrs.classes.map fun c =>
+    (match c.scalar with | some o => ov o | none => []) ++ (match c.list with | some o => ov o | none => []) ++
+    (match c.map with | some o => ov o | none => []) ++
+    ([c.inputs, c.outputs, c.description].map fun h => match h with | some h => asg h.assigns | none => []).flatten).flatten
+
+/-- `lits`: consistency of the two forms of every literal; `keys`: the hand-written key constants of the model -/
+def stepAttrCheck (line : String) : String :=
+  match fields line with
+  | ["lits"] =>
+    match allLits.find? fun l => l.s.toUTF8.toList != l.b with
+    | some l => "bad-literal " ++ l.s
+    | none => "ok " ++ toString allLits.length
+  | ["hashed"] =>
+    -- per tool, the attributes whose assigned members the tool's recipe mentions (what `C09_hashed_attributes` pins)
+    ";".intercalate ((hashedAttributes Generated.Signature.recipeOf Generated.Signature.tools Generated.BSAttrs.tables).map
+      fun p => p.1 ++ ":" ++ ",".intercalate p.2)
+  | ["unsigned"] =>
+    ";".intercalate ((unsignedAssignments Generated.Signature.recipeOf Generated.Signature.tools Generated.BSAttrs.tables).map
+      fun p => p.1 ++ ":" ++ p.2.1 ++ ":" ++ p.2.2.1 ++ ":" ++ p.2.2.2)
+  | ["keys"] =>
+    if keyInputs == b "inputs" && keyOutputs == b "outputs" && keyDescription == b "description" then "ok" else "bad-keys"
+  | _ => "bad-op"
+
+end Configure
+
+def modes : List (String × Mode) :=
+  [("c09sig", lineLoop stepSig), ("c09hashstr", lineLoop stepHashStr),
+   ("c09configure", lineLoop stepConfigure), ("c09attrcheck", lineLoop stepAttrCheck)]
 
 end LLBuild.Drv.C09
